@@ -1127,7 +1127,7 @@ func runMVS(c *core.Ctx, which string) {
 	}
 	n := c.N(400, 20000)
 	if which == "C11" {
-		n = c.N(300, 10000)
+		n = c.N(600, 10000)
 	}
 	var ids []string
 	for _, nm := range []string{"named/get-lands-above-resolved-version", "named/patch-repeated-moves-to-prerelease", "named/ref-at-the-newest-tagged-revision", "named/noop-get-with-a-path-under-two-names"} {
